@@ -203,7 +203,8 @@ CLAIMS["C11"]["note"] = "A direct multi-chunk run through the heap-string loader
 _rep("C13", "text", "below the limit it is unaffected.", "below the limit it is unaffected. Connections: after a Hello that bus_connections_check_limits admitted and bus_connection_complete completed, the completed count "
      "and the per-user count are within max_completed_connections / max_connections_per_user.")
 _rep("C13", "note", "Not covered: completed / per-user / incomplete connection limits (bus_connection_complete drags in login-info string building and the listener watch machinery), <limit> parsing.",
-     "Not covered: max_incomplete_connections (accept loop), <limit> parsing. Found and fixed F17.")
+     "Not covered: <limit> parsing; for max_incomplete_connections the gate function is checked as an inductive step (listening exactly while below the limit), the increment in bus_connections_setup_connection is by reading. Found and fixed F17.")
+CLAIMS["C13"]["text"] += (" Accept gate: the real bus_context_check_all_watches keeps 'listening <=> incomplete connections < max_incomplete_connections' and toggles every listening server exactly once when that changes (inductive step over one accept / drop, limit up to 100000).")
 _rep("C14", "text", "a retry succeeds with the reference result.", "a retry succeeds with the reference result. Library side: DBusString replace_len / copy_len / insert_bytes on real heap strings, and header edits "
      "(set / delete field, strip unknown fields), with one failing allocation: a failed edit leaves every byte, the length and the padding as they were and succeeds on retry. Connection completion (Hello) with any "
      "single failing step leaves lists, counters, name, policy and the per-user count unchanged.")
@@ -215,7 +216,9 @@ _rep("C15", "text", "exactly the announced number moves from the loader to the m
      "they stay pending, and its expiry closes the connection.")
 _rep("C15", "note", "message finalisers, pending-fd timeout and per-connection limit, the send path;", "message finalisers beyond close_unix_fds, per-connection fd limits;")
 CLAIMS["C15"]["text"] += (" Sender side: the descriptor duplicated by dbus_message_iter_append_basic is recorded in the message or closed on every failure path, never closed twice, "
-     "the caller's descriptor is never closed, and the real close_unix_fds closes each held descriptor once.")
+     "the caller's descriptor is never closed, and the real close_unix_fds closes each held descriptor once; dbus_message_copy duplicates each descriptor once, in order, and closes every duplicate when any step fails. "
+     "Recipient side: the real _dbus_message_iter_get_args_valist / dbus_message_iter_get_basic hand out a fresh duplicate of exactly the descriptor the body index refers to, in argument order; a failed call "
+     "(type mismatch, index not attached, dup failure) closes every duplicate it made exactly once and never touches the message's own descriptors (11 argument-list shapes of up to 4 arguments).")
 _rep("C16", "text", "nothing is sampled.", "nothing is sampled. The public dbus_validate_* functions give the same verdicts on every C string of up to 6 bytes; the RequestName route accepts valid names up to 255 bytes.")
 _rep("C17", "text", "Sequential core only: the real pending-call machinery", "Sequential core: the real pending-call machinery")
 _rep("C17", "text", "serials are non-zero and consecutive ones distinct.", "serials are non-zero and consecutive ones distinct. Close: after nothing / a reply / a timeout / a cancel, the peer closing runs the real "
